@@ -217,6 +217,20 @@ class Case:
             d.update(extra)
         return d
 
+    def keep_obs(self, arr, where: str):
+        """A caller may keep what reset / step / unstep returned: an observation handed out earlier must keep showing what was
+        revealed WHEN it was returned, whatever is called afterwards (no shared buffer behind the results)."""
+        if not hasattr(self, "kept"):
+            self.kept = []
+        for old_arr, old_copy, old_where in self.kept[-6:]:
+            if not (old_arr.shape == old_copy.shape and np.array_equal(old_arr, old_copy, equal_nan=True)):
+                self.violate(f"the observation returned by an earlier {old_where} changed after a later call ({where}): results share a buffer",
+                             "observation-aliasing")
+                self.kept = []
+                return
+        if isinstance(arr, np.ndarray):
+            self.kept.append((arr, arr.copy(), where))
+
     def violate(self, what: str, site: str, extra=None):
         self.res.violation(what, self.replay(extra), key=f"{self.prop}:{site}")
         self.dead = True          # the abstract state may have diverged: do not pile up consequences
@@ -435,6 +449,7 @@ class Case:
         try:
             st, info = env.reset()
             ans = f"obs={rlist(st)}"
+            self.keep_obs(st, "reset")
             self.revealed, self.steps = set(), 0
             if info.get("game") is not env.full_game:
                 self.violate("reset info does not carry the new hidden game", "reset-info")
@@ -465,6 +480,7 @@ class Case:
         try:
             out = (env.unstep if un else env.step)(a)
             ans = self.show_out(out)
+            self.keep_obs(out[0], nm)
             if before_c07 is not None:
                 # C07 on the environment: whatever happened before (un-reveals in any order included), revealing a true value
                 # widens no interval and lowers no reward (= raises no gap)
@@ -980,16 +996,143 @@ def run(tier: str, budget: Budget, rnd, arg: str) -> StreamResult:
             drop(c)
     else:
         raise ValueError(f"unknown stream argument {arg}")
+    if arg in ("C08env", "C09"):
+        mixed_edit_cases(res, rnd, tier, budget)
     res.notes.append(f"{cid} configurations, {len(script)} protocol lines")
     return finish(res, script)
+
+
+def mixed_edit_cases(res, rnd, tier, budget) -> None:
+    """Oracle on the real code only.  The environment does not own the knowledge: `env.incomplete_game` is public and is edited
+    directly by callers (reveal / un-reveal / set_value without a recompute) between environment steps.  After the next
+    step / unstep — which recomputes — bounds and reward must be those of a fresh game holding the current knowledge, and a
+    further recompute must change nothing ("bounds depend only on current knowledge"; C08 / C09 'reward is the negated gap of
+    freshly recomputed bounds')."""
+    M = mods()
+    from incomplete_cooperative.coalitions import Coalition, minimal_game_coalitions
+    for ci in range(24 if tier == "quick" else 240):
+        if budget.left() < 6:
+            break
+        n = 4 if ci % 3 else 5
+        N = 2 ** n
+        comp = ["superadditive", "superadditive_cached", "sam_apx_1"][ci % 3]
+        samg = comp.startswith("sam")
+        v = G.sam_game(n, rnd) if samg else G.sa_game(n, rnd, rnd.choice(["int", "dyadic"]), neg_singletons=ci % 4 == 1)
+        fv = [float(x) for x in v]
+        gapname = GAPS[ci % len(GAPS)]
+        gapf = heavy().GAPS[gapname]
+        env = M.ICG_Gym(M.Game(n, M.BOUNDS[comp]), lambda: table_game(n, v), minimal_game_coalitions(n), gapf)
+        env.reset()
+        known = {0, N - 1} | {1 << i for i in range(n)}
+        ex = [c.id for c in env.explorable_coalitions]
+        hist = []
+        ctx = {"n": n, "values": [rs(x) for x in v], "computer": comp, "gap": gapname, "history": hist}
+
+        def fresh_state():
+            g2 = M.Game(n, M.BOUNDS[comp])
+            ks = sorted(known)
+            g2.set_known_values([fv[c] for c in ks], [Coalition(c) for c in ks])
+            g2.compute_bounds()
+            return fl(g2.get_lower_bounds()), fl(g2.get_upper_bounds()), float(gapf(g2))
+        ok = True
+        for step_ in range(8):
+            unknown = [c for c in ex if c not in known]
+            revealed = [c for c in ex if c in known]
+            kind = rnd.choice(["edit-reveal", "edit-unreveal", "step", "step", "unstep"])
+            try:
+                if kind == "edit-reveal" and unknown:
+                    c = rnd.choice(unknown)
+                    env.incomplete_game.reveal_value(fv[c], Coalition(c))
+                    known.add(c)
+                    hist.append(f"game.reveal {c} (no recompute)")
+                    continue
+                if kind == "edit-unreveal" and revealed:
+                    c = rnd.choice(revealed)
+                    env.incomplete_game.unreveal_value(Coalition(c))
+                    known.discard(c)
+                    hist.append(f"game.unreveal {c} (no recompute)")
+                    continue
+                if kind == "step" and unknown:
+                    c = rnd.choice(unknown)
+                    out = env.step(ex.index(c))
+                    known.add(c)
+                    hist.append(f"env.step {c}")
+                elif kind == "unstep" and revealed:
+                    c = rnd.choice(revealed)
+                    out = env.unstep(ex.index(c))
+                    known.discard(c)
+                    hist.append(f"env.unstep {c}")
+                else:
+                    continue
+            except Exception as e:      # noqa: BLE001
+                res.violation(f"a mixed history of game-level edits and environment steps raised {type(e).__name__}: {e}",
+                              dict(ctx, history=list(hist)), key="env-mixed:raised")
+                ok = False
+                break
+            res.evaluations += 1
+            res.count("mixed-edit:" + kind)
+            ig = env.incomplete_game
+            got = (fl(ig.get_lower_bounds()), fl(ig.get_upper_bounds()), -float(out[1]))
+            want = fresh_state()
+            if got[0] != want[0] or got[1] != want[1] or abs(got[2] - want[2]) > 1e-12 * max(1.0, abs(want[2])):
+                res.violation("after game-level edits (without recompute) followed by an environment step / unstep, bounds or reward are "
+                              "not those of a fresh game with the current knowledge", dict(ctx, history=list(hist)), key="env-mixed:history")
+                ok = False
+                break
+            ig.compute_bounds()
+            if fl(ig.get_lower_bounds()) != want[0] or fl(ig.get_upper_bounds()) != want[1]:
+                res.violation("recomputing after an environment step changed the bounds (the step's own recompute was partial)",
+                              dict(ctx, history=list(hist)), key="env-mixed:idempotence")
+                ok = False
+                break
+        if ok and len(hist) >= 4:
+            res.nontrivial.add(("mixed", ci))
 
 
 # ----------------------------------------------------------------------------------------------
 # replay of a stored failing input on the real code
 
+def replay_mixed(inp: dict):
+    """re-run a recorded mixed history (game-level edits without recompute + environment steps) on the real code"""
+    M = heavy()
+    from incomplete_cooperative.coalitions import Coalition, minimal_game_coalitions
+    n, comp, gapf = inp["n"], inp["computer"], M.GAPS[inp["gap"]]
+    v = [Fraction(x) for x in inp["values"]]
+    fv = [float(x) for x in v]
+    env = M.ICG_Gym(M.Game(n, M.BOUNDS[comp]), lambda: table_game(n, v), minimal_game_coalitions(n), gapf)
+    env.reset()
+    ex = [c.id for c in env.explorable_coalitions]
+    known = {0, 2 ** n - 1} | {1 << i for i in range(n)}
+    for h in inp["history"]:
+        w = h.split()
+        c = int(w[1])
+        if w[0] == "game.reveal":
+            env.incomplete_game.reveal_value(fv[c], Coalition(c)); known.add(c)
+            continue
+        if w[0] == "game.unreveal":
+            env.incomplete_game.unreveal_value(Coalition(c)); known.discard(c)
+            continue
+        out = (env.step if w[0] == "env.step" else env.unstep)(ex.index(c))
+        (known.add if w[0] == "env.step" else known.discard)(c)
+        g2 = M.Game(n, M.BOUNDS[comp])
+        ks = sorted(known)
+        g2.set_known_values([fv[k] for k in ks], [Coalition(k) for k in ks])
+        g2.compute_bounds()
+        ig = env.incomplete_game
+        if fl(ig.get_lower_bounds()) != fl(g2.get_lower_bounds()) or fl(ig.get_upper_bounds()) != fl(g2.get_upper_bounds()) \
+                or abs(-float(out[1]) - float(gapf(g2))) > 1e-12 * max(1.0, abs(float(gapf(g2)))):
+            return True, f"reproduced on the real code: after `{h}` bounds / reward are not those of a fresh game with the current knowledge"
+        ig.compute_bounds()
+        if fl(ig.get_lower_bounds()) != fl(g2.get_lower_bounds()) or fl(ig.get_upper_bounds()) != fl(g2.get_upper_bounds()):
+            return True, f"reproduced on the real code: recomputing after `{h}` changes the bounds"
+    return False, "the stored mixed history no longer violates the property on the real code"
+
+
 def replay(prop: str, payload: dict):
     heavy()
     inp = payload["input"]
+    if (payload.get("key") or "").startswith("env-mixed") or ("history" in inp and "values" in inp and "computer" in inp):
+        return replay_mixed(inp)
     res = StreamResult("replay")
     script = Script()
     n = inp["n"]
